@@ -214,7 +214,12 @@ func (s *streamGRPC) SendHeader(md metadata.MD) error {
 	if err := s.isDone(); err != nil {
 		return err
 	}
+	return s.sendHeader(md)
+}
 
+// sendHeader writes the headers; unlike SendHeader it is also used after the
+// handler has returned, when the context may already be done.
+func (s *streamGRPC) sendHeader(md metadata.MD) error {
 	if s.sentHeader {
 		return fmt.Errorf("already sent headers")
 	}
@@ -564,8 +569,10 @@ func (m *Mux) serveGRPC(w http.ResponseWriter, r *http.Request) {
 
 	herr := hd.handler(&m.opts, stream)
 	if !stream.sentHeader {
-		if err := stream.SendHeader(nil); err != nil {
-			return // ctx canceled
+		// The status must reach the client even when the deadline has
+		// already expired, so don't go through the done check.
+		if err := stream.sendHeader(nil); err != nil {
+			return
 		}
 	}
 	flusher.Flush()
